@@ -256,9 +256,10 @@ def _l2_conditions(tier, seed):
         for a, b in U.class_pairs(U.ALPHABET):
             if a[0] in sel and b[0] in sel:
                 continue
-            if a[0] in ('cat_b', 'isp_b') and b[0] in sel:
-                add('dict', 1, (a, b))      # n + 3 examples under a symbolic selection: keep the quick tier small
-                continue
+            if a[0] in ('cat_b', 'isp_b', 'cat_self', 'isp_self', 'tile') and b[0] in sel:
+                if U.budget((b,)) < 2:
+                    add('dict', 1, (a, b))  # a grown dataset under a symbolic selection: keep the quick tier small
+                continue                    # (two symbolic index entries over >= 4 examples: thorough tier)
             add('dict', 2, (a, b))
     else:
         for backing in ('list', 'dict'):
@@ -276,8 +277,10 @@ def _np_conditions(tier, seed):
     ops1 = [('map',), ('sl', 'm1'), ('cat_self',), ('batch', 2, False), ('batch', 2, True), ('zip_self',), ('items',), ('cache',), ('tile', 2),
             ('isp_self',), ('split', 2, 1), ('copy',), ('kzip_b', 1)]
     for backing in ('list', 'dict'):
-        for n in (0, 1, 3):
+        for n in ((1, 3) if tier == 'quick' else (0, 1, 2, 3)):
             for op in ops1:
+                if tier == 'quick' and backing == 'list' and op[0] in ('items', 'kzip_b', 'copy', 'split'):
+                    continue
                 L = U.max_len(n, (op,))
                 for i in range(-L - 2, L + 2):
                     out.append((backing, n, (op,), i))
